@@ -101,6 +101,22 @@ pub const MOVE_TWINS: &[(&str, &str, &str)] = &[
     ("r1bqkbnr/pp1ppppp/2n5/2p5/4P3/5N2/PPPP1PPP/RNBQKB1R w KQkq - 2 3", "e4e5 d7d5", "h2h3 d7d6 e4e5 d6d5 h3h4 h7h6"),
 ];
 
+/// Histories after which a castling right is gone although king and a rook stand on their home squares again (or a
+/// castling move would at least look attractive): rook trades on a home corner with recapture by the other rook, a king
+/// taking a rook on its corner, rook or king stepping away and back, a rook captured on its corner by a minor piece or
+/// by a promoting pawn.
+pub const RIGHTS_LINES: &[(&str, &str)] = &[
+    ("r4rk1/1pp2ppp/2n2n2/3p4/3P4/2N2N2/1PP2PPP/R2RK3 b Q - 0 1", "a8a1 d1a1 h7h6"),
+    ("r2rk3/1pp2ppp/2n2n2/3p4/3P4/2N2N2/1PP2PPP/R4RK1 w q - 0 1", "a1a8 d8a8 h2h3"),
+    ("r4rk1/1pp2ppp/2n2n2/3p4/3P4/2N2N2/1PP2PPP/R2RK3 b Q - 0 1", "a8a1 d1a1 h7h6 h2h3 h6h5"),
+    ("4k2r/p6K/8/8/8/8/8/7Q w k - 0 1", "h7h8 a7a6 h8h7 a6a5 h7g6 a5a4 g6g5"),
+    ("r3k2r/pppq1ppp/2npbn2/2b1p3/2B1P3/2NPBN2/PPPQ1PPP/R3K2R w KQkq - 0 1", "h1g1 h8g8 g1h1 g8h8"),
+    ("r3k2r/pppq1ppp/2npbn2/2b1p3/2B1P3/2NPBN2/PPPQ1PPP/R3K2R w KQkq - 0 1", "e1f1 e8f8 f1e1 f8e8"),
+    ("r3k2r/pppq1ppp/2npbn2/2b1p3/2B1P3/2NPBN2/PPPQ1PPP/R3K2R w KQkq - 0 1", "a1b1 a8b8 b1a1 b8a8"),
+    ("r3k2r/1P6/8/8/8/8/6p1/R3K2R w KQkq - 0 1", "b7a8q g2h1q"),
+    ("r3k2r/8/8/8/3b4/8/8/R3K2R b KQkq - 0 1", "d4a1 h1g1 a1d4 g1h1"),
+];
+
 /// Perpetual-check lines: (root, moves). After the moves the side to move has a single legal move, which is the
 /// move it played four plies earlier (what the engine's repetition filter looks for).
 pub const PERPETUALS: &[(&str, &str)] = &[
